@@ -264,9 +264,11 @@ check("C06", "exploration",
       "one of three scheduling strategies: uniform random / PCT-style priorities with 0-3 change points / sticky with a seeded switch probability); every atomic operation, sched_yield, library malloc/free and clear-callback entry is a scheduling point; "
       "distinct = distinct plan hash (scenario + scheduler seed); non-trivial = at least one preemption of a task in the middle of a library operation; distinct interleavings are measured separately as distinct (task, source line) sequences",
       ["src/memory.c (compiled with the shipped flags against the shadowed <stdatomic.h>/<sched.h>)", "include/cstl/memory.h"],
-      stubs=["threads (ucontext fibers; the seeded scheduler decides who runs at every scheduling point)", "C11 atomics (real compiler builtins behind a scheduling point)", "sched_yield (back-of-run-queue rule)"],
-      required_probes=["preempt", "sched_yield_executed", "c06_lock_success", "c06_lock_fail", "c06_lock_after_death", "c06_share", "c06_touch_owned", "c06_lin_checked", "c06_starts_with_one_owner"],
-      assumptions=["sequentially consistent interleavings of the library's atomic steps only (all atomics in memory.c are seq_cst); weaker hardware orders are not simulated",
+      stubs=["threads (ucontext fibers; the seeded scheduler decides who runs at every scheduling point)", "C11 atomics (real compiler builtins behind a scheduling point)", "sched_yield (back-of-run-queue rule; stalled threads are not waited for)"],
+      required_probes=["preempt", "sched_yield_executed", "c06_lock_success", "c06_lock_fail", "c06_lock_after_death", "c06_share", "c06_touch_owned", "c06_lin_checked", "c06_starts_with_one_owner", "fault_thread_stalled", "fault_thread_stalled_150_steps_or_more", "clear_callback_locks_back_reference"],
+      assumptions=["fault: stalled threads - in a third of the runs, with a seeded probability per scheduler step, a thread that is inside an operation is taken off the processor for 5-400 scheduler steps (at most 800 per run); a yielding thread does not wait for a stalled one",
+                   "implicit accesses to _Atomic objects (plain expressions) have no name the shadowed <stdatomic.h> could intercept: they are scheduling points in the tsan variant only (2% of the runs), where the TSan runtime's atomic entry points are wrapped at link time; the pinned memory.c has none",
+                   "sequentially consistent interleavings of the library's atomic steps only (all atomics in memory.c are seq_cst); weaker hardware orders are not simulated",
                    "seeded schedule search, not exhaustive enumeration with visited-state pruning: the 'every interleaving' quantifier is sampled",
                    "atomicity of what unique() observes against concurrent resets is not demanded (the property does not promise it)",
                    "data-race clause: the same seeded schedules run in a build where only src/memory.c and the payload accessors are compiled with -fsanitize=thread and the fibers are registered through TSan's fiber API (no-sync switches), "
